@@ -1355,10 +1355,61 @@ def check_transport_close_pattern() -> list:
     return out
 
 
+def check_base_glue() -> list:
+    """The model identifies `with instr:` / `with proxy:` with open()/close() and `tOpen`/`tClose` with
+    QMI_Transport.open/close.  That rests on the shape of four small base-class methods; returns [(name, why)] for
+    every one that no longer has it (so an edit there breaks the obligations instead of going unnoticed)."""
+    import textwrap
+    from qmi.core.instrument import QMI_Instrument
+    from qmi.core.transport import QMI_Transport
+    out = []
+
+    def body(k, m):
+        return D.body_without_docstring(ast.parse(textwrap.dedent(inspect.getsource(k.__dict__[m]))).body[0])
+
+    def is_self_call(st, name):
+        return (isinstance(st, ast.Expr) and isinstance(st.value, ast.Call) and _is_self_attr(st.value.func, name)
+                and not st.value.args and not st.value.keywords)
+
+    def is_flag_assign(st, val):
+        return (isinstance(st, ast.Assign) and len(st.targets) == 1 and _is_self_attr(st.targets[0], "_is_open")
+                and isinstance(st.value, ast.Constant) and st.value.value is val)
+
+    def is_flag_guard(st, negated):
+        if not (isinstance(st, ast.If) and not st.orelse and st.body and isinstance(st.body[-1], ast.Raise)):
+            return False
+        t = st.test
+        if negated:
+            return isinstance(t, ast.UnaryOp) and isinstance(t.op, ast.Not) and _is_self_attr(t.operand, "_is_open")
+        return _is_self_attr(t, "_is_open")
+    try:
+        b = body(QMI_Instrument, "__enter__")
+        if not (len(b) == 2 and is_self_call(b[0], "open") and isinstance(b[1], ast.Return)
+                and isinstance(b[1].value, ast.Name) and b[1].value.id == "self"):
+            out.append(("QMI_Instrument.__enter__", "is no longer `self.open(); return self` (the model treats `with` as open())"))
+        b = body(QMI_Instrument, "__exit__")
+        if not (len(b) == 1 and is_self_call(b[0], "close")):
+            out.append(("QMI_Instrument.__exit__", "is no longer `self.close()` (the model treats leaving `with` as close())"))
+        b = body(QMI_Transport, "open")
+        if not (len(b) == 3 and is_flag_guard(b[0], False) and is_self_call(b[1], "_open_transport") and is_flag_assign(b[2], True)):
+            out.append(("QMI_Transport.open", "is no longer `if self._is_open: raise …; self._open_transport(); self._is_open = True` "
+                        "(the model's tOpen: refuse if open, a failure leaves the link closed)"))
+        b = body(QMI_Transport, "close")
+        if not (len(b) == 2 and is_self_call(b[0], "_check_is_open") and is_flag_assign(b[1], False)):
+            out.append(("QMI_Transport.close", "is no longer `self._check_is_open(); self._is_open = False` (the model's tClose)"))
+        b = body(QMI_Transport, "_check_is_open")
+        if not (len(b) == 1 and is_flag_guard(b[0], True)):
+            out.append(("QMI_Transport._check_is_open", "is no longer `if not self._is_open: raise …`"))
+    except (OSError, TypeError, SyntaxError, KeyError, IndexError) as e:
+        out.append(("base-class glue", f"source not available / not parsable: {type(e).__name__}: {e}"))
+    return out
+
+
 def translate_all() -> tuple[list, list, list]:
     """(programs, untranslatable [(name, why)], import_failures)."""
     classes, fails = D.discover_classes()
     progs, bad = [], []
+    bad += check_base_glue()
     bad += [("transport " + n, w) for n, w in check_transport_close_pattern()]
     for cls in classes:
         try:
